@@ -40,8 +40,40 @@ impl VEnv {
     }
 }
 
+/// Livelock detection: every clock read (each connection poll does at least one) and every
+/// transport poll is a tick; ticks at an unchanged virtual instant are counted, and a task that
+/// keeps the runtime busy without the clock ever moving trips the limit. A legitimate run needs a
+/// few thousand ticks per instant at most (a window's worth of segments).
+pub const SPIN_LIMIT: u64 = 400_000;
+thread_local! {
+    static SPIN: std::cell::Cell<(Option<tokio::time::Instant>, u64, bool)> = const { std::cell::Cell::new((None, 0, false)) };
+}
+pub fn spin_reset() {
+    SPIN.with(|c| c.set((None, 0, false)));
+}
+pub fn spin_tripped() -> bool {
+    SPIN.with(|c| c.get().2)
+}
+pub fn spin_tick() {
+    let now = tokio::time::Instant::now();
+    let trip = SPIN.with(|c| {
+        let (last, n, tripped) = c.get();
+        if last == Some(now) {
+            c.set((last, n + 1, tripped || n + 1 >= SPIN_LIMIT));
+            !tripped && n + 1 >= SPIN_LIMIT
+        } else {
+            c.set((Some(now), 0, tripped));
+            false
+        }
+    });
+    if trip {
+        panic!("verif livelock: {SPIN_LIMIT} polls at one virtual instant, the clock cannot advance");
+    }
+}
+
 impl UtpEnvironment for VEnv {
     fn now(&self) -> std::time::Instant {
+        spin_tick();
         tokio::time::Instant::now().into_std()
     }
     fn copy(&self) -> Self {
@@ -207,6 +239,7 @@ impl SimNet {
 
     /// A socket hands a datagram to the network. Err(EMSGSIZE) if the local link rejects it.
     fn send(&self, from: SocketAddr, to: SocketAddr, bytes: &[u8]) -> std::io::Result<usize> {
+        spin_tick();
         let mut g = self.inner.lock();
         let t_us = (tokio::time::Instant::now() - g.start).as_micros() as u64;
         let parsed = ref_parse_message(bytes);
